@@ -49,7 +49,7 @@ class Ctx:
         self.alg = {}         # algebraic constants already introduced
         self.stats = stats
         self.fresh = itertools.count()
-        self.fp_cache = {}; self.fp_point = {}; self.alg_axiom_ids = set()
+        self.fp_cache = {}; self.fp_point = {}; self.alg_axiom_ids = set(); self.uf_index = {}
         self.sin_exact = 0           # >0: link sin(t) to exact values for t = pi*p/q <= sin_exact*pi (C07/C08 oracles)
         self.exp_underflow = False   # IEEE fact exp(t)=0 for t<=-746 (switched on by C03 harnesses)
         self.feas_timeout = 8000
@@ -357,9 +357,10 @@ class SR:
     def _uf(self, name):
         c = Ctx.cur
         lst = c.uf.setdefault(name, [])
-        for a, v in lst:
-            if z3.eq(a.n, self.n) and z3.eq(a.d, self.d):
-                return v
+        idx = c.uf_index.setdefault(name, {})
+        hit = idx.get((self.n.get_id(), self.d.get_id()))       # identical ASTs share their id
+        if hit is not None:
+            return hit
         # same argument written differently (a+b vs b+a, another association of a matrix product): if the difference
         # of the two arguments is the zero polynomial (decided by the solver without hypotheses) the same variable is reused (sound: only identical
         # polynomials are merged; everything else is left to the functional-consistency axioms)
@@ -374,21 +375,21 @@ class SR:
                 sv.add(*[f for f in c.axioms if f.get_id() in c.alg_axiom_ids])    # only the defining facts of PI, SQ2, ...
                 sv.add((a.n * self.d - self.n * a.d) != 0)       # unsat <=> the same polynomial modulo the algebraic constants
                 if str(sv.check()) == 'unsat':
-                    lst.append((self, v))
+                    lst.append((self, v)); idx[(self.n.get_id(), self.d.get_id())] = v
                     return v
         if is_const(self.n) and is_const(self.d):
             val = cfrac(self.n) / cfrac(self.d)
             ex = EXACT.get(name, lambda v: None)(val)
             if ex is not None:
                 v = SR(rv(ex))
-                lst.append((self, v))
+                lst.append((self, v)); idx[(self.n.get_id(), self.d.get_id())] = v
                 return v
         v = SR(z3.Real('%s!%d' % (name, next(c.fresh))))
         big = len(lst) > 64       # very many calls (quadratures): pairwise axioms are dropped (weaker hypotheses, still sound)
         if not big:
             for a, w in lst:   # functional consistency
                 c.axioms.append(z3.Implies(a.n * self.d == self.n * a.d, w.n == v.n))
-        lst.append((self, v))
+        lst.append((self, v)); idx[(self.n.get_id(), self.d.get_id())] = v
         AX[name](c, self, v, [lst[-1]] if big else lst)
         return v
 
